@@ -29,9 +29,17 @@ type Capture struct {
 	Records []LogRecord
 	// OnRecord, when set, is called at emission time (ordering checks).
 	OnRecord func()
+	// OnEnabled, when set, is called from Enabled: slog asks the handler before it copies the attributes into the record,
+	// so a simulator yield here lets other requests run in between.
+	OnEnabled func()
 }
 
-func (c *Capture) Enabled(context.Context, slog.Level) bool { return true }
+func (c *Capture) Enabled(context.Context, slog.Level) bool {
+	if c.OnEnabled != nil {
+		c.OnEnabled()
+	}
+	return true
+}
 
 func (c *Capture) Handle(_ context.Context, r slog.Record) error {
 	rec := LogRecord{Level: r.Level, Msg: r.Message, Attrs: map[string]string{}}
